@@ -254,7 +254,7 @@ pub fn run_c08(cfg: &Config) -> i32 {
 	});
 	total.merge(rep);
 	// generated nested values
-	let n = cfg.budget(200_000, 8_000_000);
+	let n = cfg.budget(1_000_000, 20_000_000);
 	let shards = 64;
 	let seed = cfg.seed;
 	let rep = parallel(cfg.threads, shards, |i| {
@@ -417,7 +417,7 @@ fn run_print(cfg: &Config, id: &'static str) -> i32 {
 	let n_records = records.len();
 	let records = std::sync::Arc::new(records);
 	let r2 = records.clone();
-	let per_record = if cfg.san { 1 } else if cfg.tier == Tier::Thorough { 24 } else { 3 };
+	let per_record = if cfg.san { 1 } else if cfg.tier == Tier::Thorough { 40 } else { 8 };
 	let rep = parallel(cfg.threads, shards, move |i| {
 		let mut mon = PrintMon {
 			rep: Report::new(),
@@ -443,7 +443,7 @@ fn run_print(cfg: &Config, id: &'static str) -> i32 {
 	total.count("option_records_in_pairwise_cover", n_records as u64);
 
 	// (b) random (value, record) pairs with thresholds straddling the actual widths
-	let n = cfg.budget(250_000, 25_000_000);
+	let n = cfg.budget(2_000_000, 40_000_000);
 	let rep = parallel(cfg.threads, shards, |i| {
 		let mut mon = PrintMon {
 			rep: Report::new(),
@@ -530,7 +530,7 @@ fn run_print(cfg: &Config, id: &'static str) -> i32 {
 	total.merge(rep);
 
 	// (c) the three presets through their dedicated methods
-	let n = cfg.budget(30_000, 2_000_000);
+	let n = cfg.budget(200_000, 4_000_000);
 	let rep = parallel(cfg.threads, shards, |i| {
 		let mut rep = Report::new();
 		let mut rng = Rng::new(seed).fork(0x9a3 + i as u64);
